@@ -43,6 +43,7 @@ func (k *kase) open(under *youdb.MemDatabase) (c *chain, startPrims []prim, err 
 		}
 	}()
 	db := newRecDB(under)
+	db.inflate = k.inflate
 	mux := new(event.TypeMux)
 	db.start()
 	bc, e := core.NewBlockChain(db, k.engine(), mux, params.ArchiveNode, local.FakeDetailDB())
@@ -266,6 +267,38 @@ func (k *kase) canonWrites(prims []prim) (toks []string, done []int) {
 		done[i+1]++
 	}
 	return
+}
+
+// atomicSwitch: the canonical index must switch atomically: within the import of one block (from one body write to the
+// next) at most ONE primitive carries canonical-hash / tx-lookup / head-marker keys, and it is a batch.  Size-independent:
+// looks only at the recorded primitive list of a call.
+func atomicSwitch(prims []prim) string {
+	n := 0
+	for i, p := range prims {
+		index, body := false, false
+		for _, e := range p.kvs {
+			switch classify(e.key).class {
+			case kCanon, kLookup, kHeadBlk, kHeadHdr:
+				index = true
+			case kBody:
+				body = true
+			}
+		}
+		if body {
+			n = 0
+		}
+		if !index {
+			continue
+		}
+		n++
+		if !p.batch {
+			return fmt.Sprintf("atomic: primitive %d writes a canonical-hash/lookup/head-marker key outside a batch", i)
+		}
+		if n > 1 {
+			return fmt.Sprintf("atomic: primitive %d is the %d. write carrying canonical-hash/lookup/head-marker keys within one block import (the index switch must be exactly one Batch.Write)", i, n)
+		}
+	}
+	return ""
 }
 
 // ---- the oracle: Consistent ----------------------------------------------------------------------------
